@@ -61,7 +61,15 @@ def mutations(text: str, version: str, rng: random.Random, per_kind: int = 3):
         for a in OPTIONAL.get(name, []):
             if a in have:
                 opt.append((t, a))
-    for (t, a) in pick(req, per_kind * 4) + pick(opt, per_kind * 2):
+    # one occurrence of every (element, required attribute) pair the document has, so that
+    # rare elements (ExternalForm, Extends, Requires ...) are hit as often as frequent ones
+    # (and in each position: the pair is taken once per kind of preceding element)
+    prev = {t[0]: (tags[i - 1][2] if i else '~') for i, t in enumerate(tags)}
+    groups = {}
+    for (t, a) in req:
+        groups.setdefault((t[2], a, prev[t[0]]), []).append((t, a))
+    strat = [rng.choice(g) for _, g in sorted(groups.items())]
+    for (t, a) in strat + pick(req, per_kind) + pick(opt, per_kind * 2):
         k, ind, name, attrs, sc, rest = t
         new = list(lines)
         new[k] = re.sub(r' %s="[^"]*"' % re.escape(a), '', lines[k], count=1)
